@@ -31,8 +31,16 @@ CLAIMS = {
              "qmail_put is a recording stub. DATA streams < 2 GiB. The round-trip with this package's own client is the "
              "composition with the C06 monitor (reference level, hand argument).",
         design_ref="DESIGN.md section 5 C05"),
+    "C07": dict(
+        text="Proof (CBMC, complete constant unwinding) of the hand-over to qmail-queue in qmail.c: for every wait status, every "
+             "error text and every write/flush failure, qmail_close() reports success iff the queue program was reaped, did "
+             "not crash, exited 0 and nothing failed on the writer's side; the envelope terminator is never written after "
+             "a failure; permanent (D) exactly for the documented permanent exit codes, temporary (Z) otherwise. "
+             "Further proofs (listed in evidence) cover the daemons' reply mapping, the size limit and the Received field.",
+        note="qmail-queue's own behaviour is C01; substdio, close and wait_pid are environment stubs.",
+        design_ref="DESIGN.md section 5 C07"),
 }
 
 NOT_APPLICABLE = {p: PENDING for p in
-                  ["C01", "C02", "C03", "C04", "C07", "C08", "C09", "C10", "C11", "C12", "C13", "C14", "C15",
+                  ["C01", "C02", "C03", "C04", "C08", "C09", "C10", "C11", "C12", "C13", "C14", "C15",
                    "C16", "C17", "C19", "C20"]}
